@@ -224,7 +224,7 @@ C07_Step(s, e) ==
     /\ (IsEDS(s, e) /\ HasEDS(e.state, e.key)) =>
          LET d == EDSOf(s, e.key)  d2 == EDSOf(e.state, e.key)  U == UpToDateRS(s, d) IN
            (d.defaulted /\ d.strat.canary /\ Cardinality(U) = 1 /\ d.active > 0 /\ HasRS(s, d.active) /\
-              (\E u \in U : CanaryFailedIn(u) /\ u.id # d.active)) =>
+              (\E u \in U : CanaryFailedIn(u) /\ u.id # d.active /\ d.cValid # u.id)) =>   \* (an explicit validation of that replica set wins: C05)
              /\ NT(<<"C07", "rollback">>)
              /\ d2.active = d.active
                   \/ Masked("F-promote-failed", "C07", TRUE)
